@@ -7,7 +7,7 @@ from ..callgraph import get_callgraph
 from ..cfg import cfg_of
 from ..locks import accesses
 from ..model import AnalysisError, dotted, norm, walk_own
-from .common import eval_compare_on, find_calls, guards_of, key_of, local_derives_from_call, mentions
+from .common import eval_compare_on, find_calls, guards_of, key_of, local_derives_from_call, mentions, resolve_locals
 
 EXPLANATION = (
     "Static guard / dominance analysis of admission and reaping: the listener's readable() is false in overflow and the "
@@ -180,12 +180,14 @@ def rule_r4(ctx):
             continue
         a = ws[fn][0]
         val = a.stmt.value if isinstance(a.stmt, ast.Assign) else None
+        if isinstance(val, ast.Name):
+            val = resolve_locals(a.func, val) or val  # now = time.time(); ... = now
         if val is not None and norm(val) == "time.time()":
             ctx.r.ok(rid, "%s: last_activity = time.time()" % what, a.loc)
         else:
             ctx.r.violation(rid, key_of(a.func, None, "stamp-value"), "%s stamps last_activity with %s" % (fn, norm(val) if val is not None else "?"), a.loc)
         g = cfg_of(a.func)
-        nodes = g.nodes_of(a.stmt)
+        nodes = [nd for a2 in ws[fn] if a2.func is a.func for nd in g.nodes_of(a2.stmt)]  # every copy (an inlined helper is copied per call)
         if fn == "handle_read":
             if nodes and all(any(pol and isinstance(t, ast.Name) and local_derives_from_call(a.func, t.id, lambda c: dotted(c.func) == "self.recv") is True for (t, pol) in guards_of(g, nd)) for nd in nodes):
                 ctx.r.ok(rid, "stamped when data was received", a.loc)
@@ -203,28 +205,64 @@ def rule_r4(ctx):
                                                              or (isinstance(x.ast, ast.Assign) and any(isinstance(t, ast.Name) and t.id in flags for t in x.ast.targets) and isinstance(x.ast.value, ast.BinOp) and isinstance(x.ast.value.op, ast.Add)))]
             if not accs:
                 raise AnalysisError("anchor vanished: the sent-bytes accumulation in _flush_some")
+            # the family of running totals: locals only ever bound to a falsy constant, increased (`+=`, `a + b`), or copied
+            # (plainly, through bool(), or element-wise in a tuple assignment) from another member.  A value freshly
+            # returned by send() - tested per call - is not a member.
+            def _unbool(e):
+                return e.args[0] if isinstance(e, ast.Call) and dotted(e.func) == "bool" and len(e.args) == 1 else e
+
+            def _bindings(m):
+                out = []
+                for y in ast.walk(a.func.node):
+                    if isinstance(y, ast.Assign):
+                        for t in y.targets:
+                            if isinstance(t, ast.Name) and t.id == m:
+                                out.append(("=", y.value))
+                            elif isinstance(t, ast.Tuple) and isinstance(y.value, ast.Tuple) and len(t.elts) == len(y.value.elts):
+                                for tt, vv in zip(t.elts, y.value.elts):
+                                    if isinstance(tt, ast.Name) and tt.id == m:
+                                        out.append(("=", vv))
+                            elif any(isinstance(z, ast.Name) and z.id == m for z in ast.walk(t)):
+                                out.append(("?", None))
+                    elif isinstance(y, ast.AugAssign) and isinstance(y.target, ast.Name) and y.target.id == m:
+                        out.append(("+=" if isinstance(y.op, ast.Add) else "?", y.value))
+                    elif isinstance(y, (ast.For, ast.comprehension, ast.NamedExpr)) and any(isinstance(z, ast.Name) and z.id == m for z in ast.walk(y.target)):
+                        out.append(("?", None))
+                return out
+            family = {x.ast.target.id if isinstance(x.ast, ast.AugAssign) else x.ast.targets[0].id for x in accs}
+            changed = True
+            while changed:
+                changed = False
+                for m in sorted(flags - family):
+                    bs = _bindings(m)
+                    if bs and all(k == "=" and ((isinstance(v, ast.Constant) and not v.value) or (isinstance(_unbool(v), ast.Name) and _unbool(v).id in family)) for k, v in bs):
+                        family.add(m)
+                        changed = True
+            for m in sorted(family):
+                if not all(k == "+=" or (k == "=" and ((isinstance(v, ast.Constant) and not v.value) or (isinstance(_unbool(v), ast.Name) and _unbool(v).id in family)
+                                                       or (isinstance(v, ast.BinOp) and isinstance(v.op, ast.Add)))) for k, v in _bindings(m)):
+                    family.discard(m)
+            npos = []
             for x in accs:
-                # once a truthy amount was added the flag is truthy: the false outcome of a later `if <flag>` is not a way out
+                # once a truthy amount was added the totals are truthy: the false outcome of a later `if <total>` is not a way out
                 v = x.ast.value
                 positive = isinstance(x.ast, ast.AugAssign) and isinstance(x.ast.op, ast.Add) and isinstance(v, ast.Name) and any(pol and isinstance(t, ast.Name) and t.id == v.id for (t, pol) in guards_of(g, x))
-                accn = {x.ast.target.id if isinstance(x.ast, ast.AugAssign) else x.ast.targets[0].id}
 
-                def _unbool(e):
-                    return e.args[0] if isinstance(e, ast.Call) and dotted(e.func) == "bool" and len(e.args) == 1 else e
-                for m in sorted(flags - accn):  # plain copies of the accumulator: flushed = bool(sent)
-                    bs = [y for y in ast.walk(a.func.node) if isinstance(y, ast.Assign) and any(isinstance(t, ast.Name) and t.id == m for t in y.targets)]
-                    if bs and all(isinstance(_unbool(y.value), ast.Name) and _unbool(y.value).id in accn for y in bs):
-                        accn.add(m)
+                if not positive:
+                    continue  # adds an amount that may be zero (a subtotal handed up): not by itself "bytes were sent"
+                npos.append(x)
 
                 def _flag(e):
                     e = _unbool(e)
-                    return isinstance(e, ast.Name) and e.id in accn
+                    return isinstance(e, ast.Name) and e.id in family
                 dead = [b for b in g.nodes if b.kind == "branch" and b.polarity is False and _flag(b.ast)] if positive else []
                 pth = g.path(x, g.exit, avoid=nodes + dead, follow_exc=False)
                 if pth is None:
                     ctx.r.ok(rid, "after `%s` every normal way out of the flush stamps the activity" % norm(x.ast), a.func.loc(x.ast))
                 else:
                     ctx.r.violation(rid, key_of(a.func, None, "stamp-send-skipped"), "_flush_some can return after sending bytes without stamping last_activity (%s): a connection that keeps sending to a slow reader looks idle and is reaped in mid-transfer" % g.describe_path(pth), a.func.loc(x.ast))
+            if not npos:
+                raise AnalysisError("no accumulation of a positive sent amount found in _flush_some")
         if fn == "service":
             if nodes and all(g.path(g.entry, g.exit, avoid=[nd], follow_exc=False) is None for nd in nodes):
                 ctx.r.ok(rid, "every normal end of service() stamps the activity", a.loc)
@@ -309,6 +347,7 @@ RULES = [rule_r1, rule_r2, rule_r3, rule_r4, rule_r5, rule_r6, rule_r7]
 from ..selftest import M, T, V  # noqa: E402
 
 selftest = [
+    M("full-socket-returns", "channel.py", "                    # failed to write anything, break out entirely\n                    dobreak = True\n\n                    break", "                    return False", "R4"),
     M("overflow-gt", "server.py", "                and len(self._map) >= self.adj.connection_limit", "                and len(self._map) > self.adj.connection_limit", "R1"),
     M("overflow-leave-le", "server.py", "                and len(self._map) < self.adj.connection_limit", "                and len(self._map) <= self.adj.connection_limit", "R1"),
     M("readable-ignores-overflow", "server.py", "            return not self.in_connection_overflow", "            return True", "R1"),
